@@ -678,15 +678,49 @@ proof fn lemma_arm_skip(rg: Seq<u8>, ops: Seq<Seq<char>>, c: Ctx, f: Seq<char>, 
         (decode(rg, c) matches Some((Tok::Skip, n)) && f_out =~= f && st_out =~= st && rg_out =~= rg.skip(n)) ==> arm_ok(rg, ops, c, f, st, rg_out, f_out, st_out),
 {}
 
-pub mod m {
+/// the state around one loop iteration: token bytes / operand stack / text / offsets before, and bytes / text / offsets after
+struct ArmIO { rg: Seq<u8>, ops: Seq<Seq<char>>, c: Ctx, f: Seq<char>, st: Seq<usize>, rg_out: Seq<u8>, f_out: Seq<char>, st_out: Seq<usize> }
+spec fn io_ok(a: ArmIO) -> bool { arm_ok(a.rg, a.ops, a.c, a.f, a.st, a.rg_out, a.f_out, a.st_out) }
+// ---- one named obligation per token kind (all say the same thing, `io_ok`, about their own arm)
+spec fn ptgref3d_sheet_and_text(a: ArmIO) -> bool { io_ok(a) }
+spec fn ptgarea3d_sheet_and_text(a: ArmIO) -> bool { io_ok(a) }
+spec fn ptgreferr3d_sheet(a: ArmIO) -> bool { io_ok(a) }
+spec fn ptgareaerr3d_sheet(a: ArmIO) -> bool { io_ok(a) }
+spec fn ptgexp_outside_oracle(a: ArmIO) -> bool { io_ok(a) }
+spec fn binary_operator_order(a: ArmIO) -> bool { io_ok(a) }
+spec fn unary_plus_text(a: ArmIO) -> bool { io_ok(a) }
+spec fn unary_minus_text(a: ArmIO) -> bool { io_ok(a) }
+spec fn percent_text(a: ArmIO) -> bool { io_ok(a) }
+spec fn paren_text(a: ArmIO) -> bool { io_ok(a) }
+spec fn ptgmissarg_empty_operand(a: ArmIO) -> bool { io_ok(a) }
+spec fn ptgstr_text_and_length(a: ArmIO) -> bool { io_ok(a) }
+spec fn ptg18_outside_oracle(a: ArmIO) -> bool { io_ok(a) }
+spec fn ptgattr_skip_and_sum(a: ArmIO) -> bool { io_ok(a) }
+spec fn ptgerr_text(a: ArmIO) -> bool { io_ok(a) }
+spec fn ptgbool_text(a: ArmIO) -> bool { io_ok(a) }
+spec fn ptgint_text(a: ArmIO) -> bool { io_ok(a) }
+spec fn ptgnum_text(a: ArmIO) -> bool { io_ok(a) }
+spec fn ptgarray_outside_oracle(a: ArmIO) -> bool { io_ok(a) }
+spec fn ptgname_text(a: ArmIO) -> bool { io_ok(a) }
+spec fn ptgref_text(a: ArmIO) -> bool { io_ok(a) }
+spec fn ptgarea_text(a: ArmIO) -> bool { io_ok(a) }
+spec fn ptgreferr_text(a: ArmIO) -> bool { io_ok(a) }
+spec fn ptgareaerr_text(a: ArmIO) -> bool { io_ok(a) }
+spec fn ptgnamex_outside_oracle(a: ArmIO) -> bool { io_ok(a) }
+spec fn function_call_arguments_in_order(a: ArmIO) -> bool { io_ok(a) }
+
+pub mod m_wf {
 use super::*;
 verus! {
-//@@ fn src/xls.rs parse_formula props=C14 entry ret=res r13 mutparams
+//@@ fn src/xls.rs parse_formula props=C14 alias=wf ret=res r13 mutparams
 //@@ r6 3
 //@@ sig
+    requires
+        // the oracle accepts the token stream (complete, defined tokens within its scope; operands present for every operator)
+        render(__p_rgce@, mk_ctx(sheets@, names@, xtis@, *encoding)) is Some,
     ensures
         //# C14.formula_text_is_a1_rendering
-        render(__p_rgce@, mk_ctx(sheets@, names@, xtis@, *encoding)) matches Some(t) ==> (res matches Ok(s) && s@ == t),
+        res matches Ok(s) && Some(s@) == render(__p_rgce@, mk_ctx(sheets@, names@, xtis@, *encoding)),
 //@@ body
     broadcast use axiom_display_u16, axiom_display_u32, axiom_display_str, axiom_display_string, axiom_str_index_range, axiom_string_index_req_range;
     let ghost ctx = mk_ctx(sheets@, names@, xtis@, *encoding);
@@ -694,15 +728,13 @@ verus! {
 //@@ before /while !rgce\.is_empty\(\)/
     proof {
         assert(cat(ops) =~= Seq::<char>::empty());
-        lemma_sb_last(formula@, stack@);
     }
 //@@ loop 0
         invariant
             ctx == mk_ctx(sheets@, names@, xtis@, *encoding),
-            //# C06.stack_offsets_are_char_boundaries
-            sorted_bnds(formula@, stack@),
+            render(__p_rgce@, ctx) is Some,
             //# C14.token_step
-            render(__p_rgce@, ctx) is Some ==> render(__p_rgce@, ctx) == fin(run(rgce@, ops, ctx)) && repr(formula@, stack@, ops),
+            render(__p_rgce@, ctx) == fin(run(rgce@, ops, ctx)) && repr(formula@, stack@, ops),
         decreases rgce@.len(),
 //@@ before /let ptg = rgce\[0\];/
         broadcast use axiom_display_u16, axiom_display_u32, axiom_display_str, axiom_display_string, axiom_str_index_range, axiom_string_index_req_range;
@@ -713,45 +745,220 @@ verus! {
         proof {
             lemma_run_step(rg_in, ops_in, ctx);
             lemma_byte_masks();
-            lemma_sb_last(f_in, st_in);
-            assume(rg_in.len() >= 600); // DEV
+            if ops_in.len() > 0 { lemma_repr_at(f_in, st_in, ops_in, ops_in.len() - 1); }
         }
+//@@ before /\}\s*0x3b \| 0x5b \| 0x7b =>/
+                proof {
+                    let io = ArmIO { rg: rg_in, ops: ops_in, c: ctx, f: f_in, st: st_in, rg_out: rgce@, f_out: formula@, st_out: stack@ };
+                    //# C14.ptgref3d_sheet_and_text
+                    assert(ptgref3d_sheet_and_text(io)) by {
+                        lemma_cell_text(le16(rg_in.skip(1).skip(2)), le16(rg_in.skip(1).skip(4)));
+                        lemma_arm_operand(rg_in, ops_in, ctx, f_in, st_in, rgce@, formula@, stack@);
+                    }
+                }
+//@@ before /\}\s*0x3c \| 0x5c \| 0x7c =>/
+                proof {
+                    let io = ArmIO { rg: rg_in, ops: ops_in, c: ctx, f: f_in, st: st_in, rg_out: rgce@, f_out: formula@, st_out: stack@ };
+                    //# C14.ptgarea3d_sheet_and_text
+                    assert(ptgarea3d_sheet_and_text(io)) by {
+                        lemma_area_text(le16(rg_in.skip(1).skip(2)), le16(rg_in.skip(1).skip(4)), le16(rg_in.skip(1).skip(6)), le16(rg_in.skip(1).skip(8)));
+                        lemma_cell_text(le16(rg_in.skip(1).skip(2)), le16(rg_in.skip(1).skip(6)));
+                        lemma_cell_text(le16(rg_in.skip(1).skip(4)), le16(rg_in.skip(1).skip(8)));
+                        lemma_arm_operand(rg_in, ops_in, ctx, f_in, st_in, rgce@, formula@, stack@);
+                    }
+                }
+//@@ before /\}\s*0x3d \| 0x5d \| 0x7d =>/
+                proof {
+                    let io = ArmIO { rg: rg_in, ops: ops_in, c: ctx, f: f_in, st: st_in, rg_out: rgce@, f_out: formula@, st_out: stack@ };
+                    //# C14.ptgreferr3d_sheet
+                    assert(ptgreferr3d_sheet(io)) by {
+                        lemma_arm_operand(rg_in, ops_in, ctx, f_in, st_in, rgce@, formula@, stack@);
+                    }
+                }
+//@@ before /\}\s*0x01 =>/
+                proof {
+                    let io = ArmIO { rg: rg_in, ops: ops_in, c: ctx, f: f_in, st: st_in, rg_out: rgce@, f_out: formula@, st_out: stack@ };
+                    //# C14.ptgareaerr3d_sheet
+                    assert(ptgareaerr3d_sheet(io)) by {
+                        lemma_arm_operand(rg_in, ops_in, ctx, f_in, st_in, rgce@, formula@, stack@);
+                    }
+                }
+//@@ before /\}\s*0x03\.\.=0x11 =>/
+                proof {
+                    let io = ArmIO { rg: rg_in, ops: ops_in, c: ctx, f: f_in, st: st_in, rg_out: rgce@, f_out: formula@, st_out: stack@ };
+                    //# C14.ptgexp_outside_oracle
+                    assert(ptgexp_outside_oracle(io)) by {
+                    }
+                }
+//@@ before /\}\s*0x12 =>/
+                proof {
+                    let io = ArmIO { rg: rg_in, ops: ops_in, c: ctx, f: f_in, st: st_in, rg_out: rgce@, f_out: formula@, st_out: stack@ };
+                    //# C14.binary_operator_order
+                    assert(binary_operator_order(io)) by {
+                        lemma_arm_binary(rg_in, ops_in, ctx, f_in, st_in, rgce@, formula@, stack@);
+                    }
+                }
+//@@ before /\}\s*0x13 =>/
+                proof {
+                    let io = ArmIO { rg: rg_in, ops: ops_in, c: ctx, f: f_in, st: st_in, rg_out: rgce@, f_out: formula@, st_out: stack@ };
+                    //# C14.unary_plus_text
+                    assert(unary_plus_text(io)) by {
+                        lemma_arm_top(rg_in, ops_in, ctx, f_in, st_in, rgce@, formula@, stack@, seq!['+'], Seq::empty());
+                    }
+                }
+//@@ before /\}\s*0x14 =>/
+                proof {
+                    let io = ArmIO { rg: rg_in, ops: ops_in, c: ctx, f: f_in, st: st_in, rg_out: rgce@, f_out: formula@, st_out: stack@ };
+                    //# C14.unary_minus_text
+                    assert(unary_minus_text(io)) by {
+                        lemma_arm_top(rg_in, ops_in, ctx, f_in, st_in, rgce@, formula@, stack@, seq!['-'], Seq::empty());
+                    }
+                }
+//@@ before /\}\s*0x15 =>/
+                proof {
+                    let io = ArmIO { rg: rg_in, ops: ops_in, c: ctx, f: f_in, st: st_in, rg_out: rgce@, f_out: formula@, st_out: stack@ };
+                    //# C14.percent_text
+                    assert(percent_text(io)) by {
+                        lemma_arm_top(rg_in, ops_in, ctx, f_in, st_in, rgce@, formula@, stack@, Seq::empty(), seq!['%']);
+                    }
+                }
+//@@ before /\}\s*0x16 =>/
+                proof {
+                    let io = ArmIO { rg: rg_in, ops: ops_in, c: ctx, f: f_in, st: st_in, rg_out: rgce@, f_out: formula@, st_out: stack@ };
+                    //# C14.paren_text
+                    assert(paren_text(io)) by {
+                        lemma_arm_top(rg_in, ops_in, ctx, f_in, st_in, rgce@, formula@, stack@, seq!['('], seq![')']);
+                    }
+                }
+//@@ before /\}\s*0x17 =>/
+                proof {
+                    let io = ArmIO { rg: rg_in, ops: ops_in, c: ctx, f: f_in, st: st_in, rg_out: rgce@, f_out: formula@, st_out: stack@ };
+                    //# C14.ptgmissarg_empty_operand
+                    assert(ptgmissarg_empty_operand(io)) by {
+                        lemma_arm_operand(rg_in, ops_in, ctx, f_in, st_in, rgce@, formula@, stack@);
+                    }
+                }
+//@@ before /\}\s*0x18 =>/
+                proof {
+                    let io = ArmIO { rg: rg_in, ops: ops_in, c: ctx, f: f_in, st: st_in, rg_out: rgce@, f_out: formula@, st_out: stack@ };
+                    //# C14.ptgstr_text_and_length
+                    assert(ptgstr_text_and_length(io)) by {
+                        lemma_arm_operand(rg_in, ops_in, ctx, f_in, st_in, rgce@, formula@, stack@);
+                    }
+                }
+//@@ before /\}\s*0x19 =>/
+                proof {
+                    let io = ArmIO { rg: rg_in, ops: ops_in, c: ctx, f: f_in, st: st_in, rg_out: rgce@, f_out: formula@, st_out: stack@ };
+                    //# C14.ptg18_outside_oracle
+                    assert(ptg18_outside_oracle(io)) by {
+                    }
+                }
+//@@ before /\}\s*0x1C =>/
+                proof {
+                    let io = ArmIO { rg: rg_in, ops: ops_in, c: ctx, f: f_in, st: st_in, rg_out: rgce@, f_out: formula@, st_out: stack@ };
+                    //# C14.ptgattr_skip_and_sum
+                    assert(ptgattr_skip_and_sum(io)) by {
+                        lemma_arm_skip(rg_in, ops_in, ctx, f_in, st_in, rgce@, formula@, stack@);
+                        reveal_strlit(")");
+                        lemma_arm_top(rg_in, ops_in, ctx, f_in, st_in, rgce@, formula@, stack@, "SUM("@, seq![')']);
+                    }
+                }
+//@@ before /\}\s*0x1D =>/
+                proof {
+                    let io = ArmIO { rg: rg_in, ops: ops_in, c: ctx, f: f_in, st: st_in, rg_out: rgce@, f_out: formula@, st_out: stack@ };
+                    //# C14.ptgerr_text
+                    assert(ptgerr_text(io)) by {
+                        lemma_arm_operand(rg_in, ops_in, ctx, f_in, st_in, rgce@, formula@, stack@);
+                    }
+                }
+//@@ before /\}\s*0x1E =>/
+                proof {
+                    let io = ArmIO { rg: rg_in, ops: ops_in, c: ctx, f: f_in, st: st_in, rg_out: rgce@, f_out: formula@, st_out: stack@ };
+                    //# C14.ptgbool_text
+                    assert(ptgbool_text(io)) by {
+                        lemma_arm_operand(rg_in, ops_in, ctx, f_in, st_in, rgce@, formula@, stack@);
+                    }
+                }
+//@@ before /\}\s*0x1F =>/
+                proof {
+                    let io = ArmIO { rg: rg_in, ops: ops_in, c: ctx, f: f_in, st: st_in, rg_out: rgce@, f_out: formula@, st_out: stack@ };
+                    //# C14.ptgint_text
+                    assert(ptgint_text(io)) by {
+                        lemma_arm_operand(rg_in, ops_in, ctx, f_in, st_in, rgce@, formula@, stack@);
+                    }
+                }
+//@@ before /\}\s*0x20 \| 0x40 \| 0x60 =>/
+                proof {
+                    let io = ArmIO { rg: rg_in, ops: ops_in, c: ctx, f: f_in, st: st_in, rg_out: rgce@, f_out: formula@, st_out: stack@ };
+                    //# C14.ptgnum_text
+                    assert(ptgnum_text(io)) by {
+                        lemma_arm_operand(rg_in, ops_in, ctx, f_in, st_in, rgce@, formula@, stack@);
+                    }
+                }
+//@@ before /\}\s*0x21 \| 0x22 \| 0x41/
+                proof {
+                    let io = ArmIO { rg: rg_in, ops: ops_in, c: ctx, f: f_in, st: st_in, rg_out: rgce@, f_out: formula@, st_out: stack@ };
+                    //# C14.ptgarray_outside_oracle
+                    assert(ptgarray_outside_oracle(io)) by {
+                    }
+                }
+//@@ before /\}\s*0x24 \| 0x44 \| 0x64 =>/
+                proof {
+                    let io = ArmIO { rg: rg_in, ops: ops_in, c: ctx, f: f_in, st: st_in, rg_out: rgce@, f_out: formula@, st_out: stack@ };
+                    //# C14.ptgname_text
+                    assert(ptgname_text(io)) by {
+                        lemma_arm_operand(rg_in, ops_in, ctx, f_in, st_in, rgce@, formula@, stack@);
+                    }
+                }
+//@@ before /\}\s*0x25 \| 0x45 \| 0x65 =>/
+                proof {
+                    let io = ArmIO { rg: rg_in, ops: ops_in, c: ctx, f: f_in, st: st_in, rg_out: rgce@, f_out: formula@, st_out: stack@ };
+                    //# C14.ptgref_text
+                    assert(ptgref_text(io)) by {
+                        lemma_cell_text(le16(rg_in.skip(1)), le16(rg_in.skip(1).skip(2)));
+                        lemma_arm_operand(rg_in, ops_in, ctx, f_in, st_in, rgce@, formula@, stack@);
+                    }
+                }
+//@@ before /\}\s*0x2A \| 0x4A \| 0x6A =>/
+                proof {
+                    let io = ArmIO { rg: rg_in, ops: ops_in, c: ctx, f: f_in, st: st_in, rg_out: rgce@, f_out: formula@, st_out: stack@ };
+                    //# C14.ptgarea_text
+                    assert(ptgarea_text(io)) by {
+                        lemma_area_text(le16(rg_in.skip(1)), le16(rg_in.skip(1).skip(2)), le16(rg_in.skip(1).skip(4)), le16(rg_in.skip(1).skip(6)));
+                        lemma_cell_text(le16(rg_in.skip(1)), le16(rg_in.skip(1).skip(4)));
+                        lemma_cell_text(le16(rg_in.skip(1).skip(2)), le16(rg_in.skip(1).skip(6)));
+                        lemma_arm_operand(rg_in, ops_in, ctx, f_in, st_in, rgce@, formula@, stack@);
+                    }
+                }
+//@@ before /\}\s*0x2B \| 0x4B \| 0x6B =>/
+                proof {
+                    let io = ArmIO { rg: rg_in, ops: ops_in, c: ctx, f: f_in, st: st_in, rg_out: rgce@, f_out: formula@, st_out: stack@ };
+                    //# C14.ptgreferr_text
+                    assert(ptgreferr_text(io)) by {
+                        lemma_arm_operand(rg_in, ops_in, ctx, f_in, st_in, rgce@, formula@, stack@);
+                    }
+                }
+//@@ before /\}\s*0x39 \| 0x59 =>/
+                proof {
+                    let io = ArmIO { rg: rg_in, ops: ops_in, c: ctx, f: f_in, st: st_in, rg_out: rgce@, f_out: formula@, st_out: stack@ };
+                    //# C14.ptgareaerr_text
+                    assert(ptgareaerr_text(io)) by {
+                        lemma_arm_operand(rg_in, ops_in, ctx, f_in, st_in, rgce@, formula@, stack@);
+                    }
+                }
+//@@ before /\}\s*_ => \{\s*return Err\(XlsError::Unrecognized \{\s*typ: \"ptg\"/
+                proof {
+                    let io = ArmIO { rg: rg_in, ops: ops_in, c: ctx, f: f_in, st: st_in, rg_out: rgce@, f_out: formula@, st_out: stack@ };
+                    //# C14.ptgnamex_outside_oracle
+                    assert(ptgnamex_outside_oracle(io)) by {
+                    }
+                }
 //@@ loop 3
                         invariant
                             __it3.obeys_prophetic_iter_laws(),
                         decreases 0int,
-//@@ after /0x24 \| 0x44 \| 0x64 => \{/
-                proof { lemma_cell_text(le16(rg_in.skip(1)), le16(rg_in.skip(1).skip(2))); }
 //@@ before /\}\s*if stack\.len\(\)/
         proof {
-            let p = rg_in[0] as int;
-            let b = ptg_base(p);
-            // (S)
-            lemma_cidx(f_in, f_in.len() as int);
-            assert(f_in.take(f_in.len() as int) =~= f_in);
-            if st_in.len() > 0 && is_bnd(f_in, st_in.last() as int) { lemma_bnd_idx(f_in, st_in.last() as int); }
-            lemma_struct(f_in, st_in, stack@.len() as int, formula@, stack@);
-            lemma_struct(f_in, st_in, stack@.len() - 1, formula@, stack@);
-            // (F)
-            lemma_arm_operand(rg_in, ops_in, ctx, f_in, st_in, rgce@, formula@, stack@);
-            lemma_arm_binary(rg_in, ops_in, ctx, f_in, st_in, rgce@, formula@, stack@);
-            lemma_arm_skip(rg_in, ops_in, ctx, f_in, st_in, rgce@, formula@, stack@);
-            lemma_arm_top(rg_in, ops_in, ctx, f_in, st_in, rgce@, formula@, stack@, seq!['+'], Seq::empty());
-            lemma_arm_top(rg_in, ops_in, ctx, f_in, st_in, rgce@, formula@, stack@, seq!['-'], Seq::empty());
-            lemma_arm_top(rg_in, ops_in, ctx, f_in, st_in, rgce@, formula@, stack@, Seq::empty(), seq!['%']);
-            lemma_arm_top(rg_in, ops_in, ctx, f_in, st_in, rgce@, formula@, stack@, seq!['('], seq![')']);
-            lemma_arm_top(rg_in, ops_in, ctx, f_in, st_in, rgce@, formula@, stack@, "SUM("@, seq![')']);
-            reveal_strlit(")");
-            //# C14.ptgref_text
-            assert(p < 0x80 && b == 0x24 ==> arm_ok(rg_in, ops_in, ctx, f_in, st_in, rgce@, formula@, stack@));
-            //# C14.ptgint_text
-            assert(p == 0x1E ==> arm_ok(rg_in, ops_in, ctx, f_in, st_in, rgce@, formula@, stack@));
-            //# C14.binary_operator_order
-            assert(0x03 <= p <= 0x11 ==> arm_ok(rg_in, ops_in, ctx, f_in, st_in, rgce@, formula@, stack@));
-            //# C14.unary_operator_text
-            assert(p == 0x12 || p == 0x13 ==> arm_ok(rg_in, ops_in, ctx, f_in, st_in, rgce@, formula@, stack@));
-            //# C14.paren_text
-            assert(p == 0x15 ==> arm_ok(rg_in, ops_in, ctx, f_in, st_in, rgce@, formula@, stack@));
             ops = if step(rg_in, ops_in, ctx) is Some { step(rg_in, ops_in, ctx)->Some_0.1 } else { ops_in };
         }
 //@@ end
